@@ -9,7 +9,7 @@ no state at all; the step function keeps the old one). `C10_delete_validation_at
 after all three validation steps (parse, mismatch scan, not-found scan) have passed. `C10_roundtrip_lookup`: inserting
 a new route and deleting it again restores every lookup of the tree (through radix split and merge) and hands back
 what was inserted.
-Status: proved for every search result, for histories whose inserted templates have pairwise different expansions.
+Status: proved for every search result, for every history.
 Restoring the *printed* tree needs canonical-tree uniqueness and is tied by the FUN oracle (same live set ⇒ same
 drawing) over detours and failing calls in every history; clones are the subject of C16. -/
 
@@ -59,6 +59,6 @@ theorem C10_delete_error_atomic (r : Router) (L : List LiveT) (h : Live r L) (t 
 
 /-- after a successful `insert(t, d)`, `delete(t)` returns `d` and every search answers as before the insert -/
 theorem C10_insert_then_delete_is_identity (env : Env) (r r' : Router) (L : List LiveT) (h : Live r L) (t : Bytes) (d : Nat)
-    (hi : r.insert t d = .ok r') (ts : List (Bytes × List Part)) (hp : parseTemplates t = .ok ts) (hd : DistinctExps ts) :
+    (hi : r.insert t d = .ok r') (ts : List (Bytes × List Part)) (hp : parseTemplates t = .ok ts) :
     (r'.delete t).1 = .ok d ∧ ∀ path, (r'.delete t).2.search env path = r.search env path :=
-  insert_delete_roundtrip env h hi ts hp hd
+  insert_delete_roundtrip env h hi ts hp
